@@ -112,6 +112,22 @@ pub fn dispatch(op: &str, ty: &str, args: &[Arg]) -> Option<String> {
             "i8" => go_num::<i8>(false, op, args), "i16" => go_num::<i16>(false, op, args),
             "i32" => go_num::<i32>(false, op, args), "i64" => go_num::<i64>(false, op, args),
             "f64" => go_num::<f64>(false, op, args), "f64p" => go_num::<f64>(true, op, args), "f32p" => go_num::<f32>(true, op, args),
+            // the extreme-position queries on element types that are ordered but are not numbers: words ("w00012": the
+            // order of the words is the order of the labels), pairs ordered lexicographically, chars — seeded change C10o
+            // (a string that does not parse as a number counted as NaN)
+            "strw" | "pairk" | "char" if op == "argmax" || op == "argmin" => {
+                fn ext<T: ArrayElement>(op: &str, a: &Array<T>, axis: Option<isize>, keep: Option<bool>) -> String {
+                    if op == "argmax" { w2(res_arr(&a.argmax(axis, keep)), res_arr(&okr(a).argmax(axis, keep))) }
+                    else { w2(res_arr(&a.argmin(axis, keep)), res_arr(&okr(a).argmin(axis, keep))) }
+                }
+                let (sh, es, axis, keep) = match args { [Arg::A(sh, es), ax, k] => (sh, es,
+                    match ax { Arg::N => None, Arg::Z(z) => Some(*z as isize), _ => return Some("bad".into()) },
+                    kd(k)?), _ => return Some("bad".into()) };
+                Some(match ty {
+                    "strw" => ext(op, &Array::new(es.iter().map(|x| format!("w{:05}", x + 500)).collect::<Vec<String>>(), sh.clone()).ok()?, axis, keep),
+                    "char" => ext(op, &Array::new(es.iter().map(|x| char::from_u32((*x + 100) as u32).unwrap_or('?')).collect::<Vec<char>>(), sh.clone()).ok()?, axis, keep),
+                    _ => ext(op, &mk::<Tuple2<i32, i32>>(sh, es)?, axis, keep) })
+            }
             _ => None,
         },
         "array_split" | "split" | "split_axis" | "hsplit" | "vsplit" | "dsplit" | "sort" | "argsort" | "unique" | "flip" | "flipud" | "fliplr" | "roll" | "rot90" | "delete" | "insert" | "insert_entry" | "trim_zeros" | "repeat" =>
